@@ -240,6 +240,11 @@ def run(ctx, report):
     from .c15 import eq_rule
     eq_rule(ctx, R5)
 
+    # ---------------------------------------------------------------- D6 the traversal the simplifier rides on visits and rebuilds every field
+    R6 = report.rule('C13.D6', 'visit() of every node class visits each sub-expression field, compares each with the original before returning self, and rebuilds the node from the visited fields', floor=8)
+    from .c15 import copy_visit_rule
+    copy_visit_rule(ctx, R6, only='visit')
+
 
 MUTANTS = [
     ('merge-slice-nocopy', 'miasmx/expression/expression_helper.py', '            out = v[0].copy(), v[1], v[2]\n', '            out = v[0], v[1], v[2]\n', 'C13.D4'),
